@@ -2,7 +2,7 @@
 # dev helper: generate N scenarios per family with seed S, run them, validate with TLC, summarise clause hits
 S=${1:-1}; N=${2:-200}; BIN=${3:-/verif/_work/bin/simrun_gen}
 D=${DEVLOOP_DIR:-/tmp/t}; mkdir -p $D
-cd /verif/spec
+make -s -C /verif/harness -j2 > /dev/null 2>&1; cd /verif/spec
 for f in send recv lifecycle connect caps keepalive; do
   ( python3 /verif/tools/gen.py $f $S $N > $D/s_$f.ndjson
     $BIN $D/s_$f.ndjson $D/t_$f.ndjson 2> $D/r_$f.txt
